@@ -68,6 +68,26 @@ REDACTED = "[redacted]"
 """Placeholder substituted for a sensitive claim value."""
 
 
+def _redact_value(value: object) -> object:
+    """Redact sensitive keys inside a nested claim value.
+
+    Objects and arrays are walked to any depth: a claim such as
+    ``{"context": {"email": ...}}`` or ``{"ids": [{"api_key": ...}]}`` is
+    serialized into the record exactly like a top-level one, so its keys
+    are held to the same rule.  Everything else passes through untouched.
+    """
+    if isinstance(value, Mapping):
+        return _redact_mapping(value)
+    if isinstance(value, (list, tuple)):
+        return [_redact_value(item) for item in value]
+    return value
+
+
+def _redact_mapping(claims: Mapping[str, object]) -> dict[str, object]:
+    """Replace the value of every sensitive key of *claims*, recursing into the rest."""
+    return {k: (REDACTED if _DEFAULT_CLAIM_REDACT_RE.search(k) else _redact_value(v)) for k, v in claims.items()}
+
+
 def redact_claims(claims: Mapping[str, object]) -> dict[str, object]:
     """Return *claims* with sensitive values replaced by :data:`REDACTED`.
 
@@ -75,6 +95,12 @@ def redact_claims(claims: Mapping[str, object]) -> dict[str, object]:
     matched on the name it arrived under, never on its content.  A claim
     called ``context`` holding an email address is not caught, and cannot be
     without guessing at free text.
+
+    The rule applies at **every nesting depth**: claims are routinely nested
+    (``require_all`` merges a gate's claims under its ``claims_key``; OIDC
+    providers ship ``address`` and namespaced objects), and a nested
+    ``email`` is serialized into the record just like a top-level one.  A
+    sensitive key's whole value is replaced, whatever its shape.
 
     Values are **replaced rather than dropped** so the record still shows
     which claims the credential carried.  "Was there an ``email`` claim on
@@ -88,7 +114,7 @@ def redact_claims(claims: Mapping[str, object]) -> dict[str, object]:
         A new dict with the same keys, sensitive values replaced.
 
     """
-    return {k: (REDACTED if _DEFAULT_CLAIM_REDACT_RE.search(k) else v) for k, v in claims.items()}
+    return _redact_mapping(claims)
 
 
 def no_redaction(claims: Mapping[str, object]) -> dict[str, object]:
